@@ -34,8 +34,9 @@ def block_compare(c, base, var, fmt):
     bs, vs = tuple(base["shape"]), tuple(var["shape"])
     if base.get("cells") is None or var.get("cells") is None:
         return "no output"
+    exact = not c.get("float_stream")
     if bs == vs:
-        return ca.compare(c, var["cells"], base["cells"])
+        return ca.compare(c, var["cells"], base["cells"], exact=exact)
     import itertools
     from fractions import Fraction as Fr
     cols = c["K"] or 1
@@ -53,7 +54,7 @@ def block_compare(c, base, var, fmt):
         inv = all(x < e for x, e in zip(cell, vs))
         want.append(base["cells"][flat(cell, bs)] if inb else empty)
         got.append(var["cells"][flat(cell, vs)] if inv else empty)
-    return ca.compare(c, got, want)
+    return ca.compare(c, got, want, exact=exact)
 
 
 # ---------------------------------------------------------------------------------------------
@@ -180,7 +181,9 @@ def run(ctx):
                 "d (explicit shape), v = extent replaces it under an inferred shape, and each re-encoded dimension is re-normalised with "
                 "the real shift_common(); a second stream widens one or two dimensions to (N, C), C in 2..3 (columns entirely the stored "
                 "common / constant / random) and re-encodes those with the 2-D shift_common, every sub-cube block compared; "
-                "a case = one (re-encoded cube or block, call) literal; non-trivial when N > 0 and the new common differs "
+                "a third stream uses ordinary decimal weights (0.9, 1.2, 1.3 ...) with a never-occurring category in every dimension (tolerance "
+                "stream: missing cells exactly, values within 1e-9 of the grand total, judged by the exact oracle and against the original "
+                "encoding, not in Coq); a case = one (re-encoded cube or block, call) literal; non-trivial when N > 0 and the new common differs "
                 "from the stored one")
     ctx.trusted = list(core.STD_TRUSTED) + [
         "as C03 (NumPy primitives modelled); IIndex/OpsA.shift_common is the model of iindex.shift_common (tied by property C06)",
@@ -306,11 +309,17 @@ def run(ctx):
     for i in range(1500 if thorough else 220):
         one_wide(ca.gen_case(rng, nd=rng.choice([1, 1, 2, 2, 3])))
     ctx.coverage.update({"cubes_with_an_extra_axis": n_wide, "blocks_judged": n_blocks})
+    calls0 = S.calls
+    n_dec = 2500 if thorough else 300
+    for i in range(n_dec):
+        one(ca.decimal_case(rng, kind=rng.choice(["mean", "mean", "mean", "valid_count", "sum", "count"]), nd=rng.choice([1, 1, 2, 2, 3]), absent=True))
+    n_dec_calls = S.calls - calls0
+    ctx.coverage.update({"decimal_weight_cubes": n_dec, "decimal_weight_calls_judged_by_oracle": n_dec_calls})
     ctx.coverage.update({"cubes": n_cubes, "re_encodings": n_var, "real_calls": S.calls, "calls_compared_in_coq": len(S.lits),
                          "distribution": dict(sorted(S.dist.items()))})
     if thorough:
         ctx.coverage["exhaustive"] = "every (dimension, v in 0..extent) re-encoding of every generated cube, one dimension at a time"
-    ctx.evaluations = len(S.lits)
+    ctx.evaluations = len(S.lits) + n_dec_calls
     res = core.run_cases("c05", ca.PRELUDE, S.lits, ca.CASE_TYPE, ca.CHECK_EXPR, ca.EXPLAIN_EXPR,
                          shard_size=2500 if thorough else 400)
     ca.conclude(ctx, "C05", pr, S, res, THEOREMS, HOW)
